@@ -234,6 +234,24 @@ func genRouting(seed int64, tier, prop string) *Scenario {
 			}
 			sc.Actors = append(sc.Actors, act)
 		}
+		if rng.Intn(5) == 0 {
+			// A redeploy that keeps its bindings takes a while (its target answers
+			// the first probe slowly); meanwhile another operator removes the
+			// service and gives the pair to a different one.
+			a, b := names[0], names[1]
+			hosts, paths := pickSome(rng, rtHostPool[:3], 1), dedupNorm(pickSome(rng, rtPathPool[:3], 1))
+			slow := newTarget(a)
+			sc.Targets[len(sc.Targets)-1].Phases = []Phase{{Kind: "slow", Delay: time.Duration(200+rng.Intn(400)) * time.Millisecond}}
+			first := &sc.Actors[0]
+			first.Ops = append(first.Ops,
+				Op{Kind: "deploy", Service: a, Hosts: hosts, Paths: paths, Targets: newTarget(a), DeployTimeout: 2 * time.Second, DrainTimeout: 200 * time.Millisecond, Delay: 400 * time.Millisecond},
+				Op{Kind: "deploy", Service: a, Hosts: hosts, Paths: paths, Targets: slow, DeployTimeout: 2 * time.Second, DrainTimeout: 200 * time.Millisecond, Delay: 50 * time.Millisecond, Tag: "slow-redeploy"})
+			second := &sc.Actors[1]
+			second.Ops = append(second.Ops,
+				Op{Kind: "remove", Service: a, After: "tgt.probe:" + slow[0], AfterN: 1, Delay: 3 * time.Second},
+				Op{Kind: "deploy", Service: b, Hosts: hosts, Paths: paths, Targets: newTarget(b), DeployTimeout: 2 * time.Second, DrainTimeout: 200 * time.Millisecond, Delay: 10 * time.Millisecond})
+			totalCmds += 4
+		}
 		for c := 0; c < 1+rng.Intn(2); c++ {
 			act := ActorSpec{Name: fmt.Sprintf("client%d", c)}
 			for i := 0; i < 2+rng.Intn(4); i++ {
